@@ -26,6 +26,10 @@ func init() {
 			ruleLoopAdvanceExact(c, r, "")
 			ruleMatcherGuard(c, r, "", false)
 			ruleCtorReopen(c, r, "")
+			// "decodes with the library's LZMA2 reader": the raw-chunk refill must not end a chunk early,
+			// and only lc+lp <= 4 configurations (the ones LZMA2 can express) pass Verify
+			ruleRawEOFFlag(c, r, "")
+			ruleLcLp(c, r, "")
 			cone := c.Cone(nonNilFns(c.Func("lzma", "Writer2.Write"), c.Func("lzma", "Writer2.Flush"), c.Func("lzma", "Writer2.Close"),
 				c.Func("lzma", "Writer2Config.NewWriter2"))...)
 			ruleIO(c, r, cone, "", true)
